@@ -47,19 +47,12 @@ pub fn vx_gap_other_scan(resource: &TextResource, a: usize, b: usize) -> (r: boo
 '''
 
 DERIVED_EQ = r'''
-/// R-derive-eq: `#[derive(PartialEq, Eq)]` on TextSelection, written out; trusted to be structural equality.
-impl PartialEq for TextSelection {
-    #[verifier::external_body]
-    fn eq(&self, other: &Self) -> (r: bool)
-        ensures r == (*self == *other),
-    {
-        self.intid == other.intid && self.begin == other.begin && self.end == other.end
-    }
-}
+/// the executable `==` on TextSelection is the hand-written `impl PartialEq` of src/textselection.rs (sliced below, under contract):
+/// equality of the ranges, whether or not a handle is attached
 impl Eq for TextSelection {}
 impl vstd::std_specs::cmp::PartialEqSpecImpl for TextSelection {
     open spec fn obeys_eq_spec() -> bool { true }
-    open spec fn eq_spec(&self, other: &Self) -> bool { *self == *other }
+    open spec fn eq_spec(&self, other: &Self) -> bool { self.begin == other.begin && self.end == other.end }
 }
 '''
 
@@ -187,7 +180,10 @@ def build():
     u.item(F, 'struct', 'TextSelectionHandle', keep_derives=['PartialEq', 'Eq', 'Clone', 'Copy', 'PartialOrd', 'Ord'])
     u.item('src/resources.rs', 'struct', 'TextResourceHandle', keep_derives=['PartialEq', 'Eq', 'Clone', 'Copy', 'PartialOrd', 'Ord'])
     u.item(F, 'struct', 'TextSelection', keep_derives=['Clone', 'Copy'])
-    u.trusted_text(DERIVED_EQ, 'external_body: #[derive(PartialEq)] on TextSelection is structural equality (R-derive-eq)')
+    u.trusted_text(DERIVED_EQ, 'PartialEqSpecImpl for TextSelection: `==` in executable code means the sliced `eq` (same begin and end)')
+    u.impl(F, 'impl PartialEq for TextSelection', [
+        Fn('eq', props=P, ret='r', ensures=[('ranges', 'r == (self.begin == other.begin && self.end == other.end)')]),
+    ])
     u.item(F, 'struct', 'TextSelectionSet', keep_derives=['Clone'],
            rewrites=[('R-smallvec', r'SmallVec<\[TextSelection; 1\]>', 'Vec<TextSelection>'),
                      ('R-vis', r'\bdata:', 'pub data:'), ('R-vis', r'\bresource:', 'pub resource:'), ('R-vis', r'\bsorted:', 'pub sorted:')])
